@@ -1501,7 +1501,7 @@ class BADS:
                 yval_vec = np.empty(self.options["noise_final_samples"])
                 ysd_vec = np.empty(self.options["noise_final_samples"])
                 for i_sample in range(self.options["noise_final_samples"]):
-                    y, y_sd, _ = self.function_logger(
+                    y, y_sd, f_idx = self.function_logger(
                         self.u, record_duplicate_data=False
                     )
                     yval_vec[i_sample] = y
@@ -1515,6 +1515,8 @@ class BADS:
                                 ysd_vec,
                                 self.function_logger.S[
                                     self.function_logger.Xn
+                                    if f_idx is None
+                                    else f_idx
                                 ],
                             )
                         )
